@@ -316,6 +316,9 @@ def solve_models(tier="quick"):
     add("lp-vec", ("bin", "+", ("lincomb", [S("k0"), S("k1")], v2), ("const", S("c0"))), "min", [("ge", ("vsum", v2), ("num", S("r0")))], bx)
     add("lp-vec-max", ("vsum", v2), "max", [("le", ("lincomb", [S("k0"), S("k1")], v2), ("num", S("r0"))), ("rle", ("velem", v2, 0), ("num", S("r1")))], bx)
     add("lp-const-in-con", ("bin", "-", X, Y), "min", [("le", ("lincomb", [S("k0"), S("k1")], ("vbin", "+", v2, ("sc", S("c0")))), ("num", S("r0")))], bx)
+    # top-level objective nodes that carry a constant inside a vector expression
+    add("lp-lincomb-shift", ("lincomb", [S("k0"), S("k1")], ("vbin", "-", v2, ("arr", [S("c0"), 1.0]))), "min", [("ge", ("vsum", v2), ("num", S("r0")))], bx)
+    add("lp-vsum-shift-max", ("vsum", ("vbin", "+", ("vbin", "*", v2, ("sc", 2.0)), ("sc", S("c0")))), "max", [("le", ("lincomb", [1.0, S("k1")], v2), ("num", S("r0")))], bx)
     add("lp-mixed", ("bin", "+", ("vsum", v2), X), "min", [("ge", ("bin", "+", ("velem", v2, 1), X), ("num", S("r0")))], bx)
     if tier == "thorough":
         v3 = ("vec", "v", 3)
